@@ -44,7 +44,6 @@ type shared struct {
 	cold     bool         // a cold process: fills use repeat counts no earlier call has used
 	variants [][]byte     // the decoder's inputs: the complete message with one value changed, by call position
 	wide     ast.ItemNode // the wide list that is part of all three shared objects
-	wideText string       // what it prints alone (computed on a twin)
 }
 
 func newShared() *shared {
@@ -60,13 +59,16 @@ func newShared() *shared {
 	}
 	wideKids[35] = ast.NewListNode(inner...)
 	wide := ast.NewListNode(wideKids...)
-	wideText := fmt.Sprint(ast.NewListNode(append([]interface{}{}, wideKids...)...)) // (a twin: the shared one is not printed here)
 	t := ast.NewListNode(ast.NewUintNode(1, "x", 7), ast.NewASCIINodeVariable("s", 1, 3), "v",
 		ast.NewListNode(ast.NewIntNode(2, "y"), "...[0]"), wide, "...[1]")
-	s := &shared{template: t, wide: wide, wideText: wideText}
+	s := &shared{template: t, wide: wide}
 	// (the text the SML parser calls share is the small template without the wide list: parsing is the slowest call)
-	s.smlText = ast.NewDataMessage("msg", 1, 1, 2, "H->E", ast.NewListNode(ast.NewUintNode(1, "x", 7), ast.NewASCIINodeVariable("s", 1, 3), "v",
-		ast.NewListNode(ast.NewIntNode(2, "y"), "...[0]"), "...[1]")).String()
+	if h, err := hex.DecodeString(os.Getenv("VERIF_CONC_SML")); err == nil && len(h) > 0 {
+		s.smlText = string(h) // a cold process gets the text from its parent, so that it has not printed anything yet
+	} else {
+		s.smlText = ast.NewDataMessage("msg", 1, 1, 2, "H->E", ast.NewListNode(ast.NewUintNode(1, "x", 7), ast.NewASCIINodeVariable("s", 1, 3), "v",
+			ast.NewListNode(ast.NewIntNode(2, "y"), "...[0]"), "...[1]")).String()
+	}
 	s.message = ast.NewDataMessage("msg", 1, 1, 2, "H->E", t)
 	// (more than a page of text, and never encoded or printed before the goroutines get it: nothing is warm.
 	// The bytes for the decoder come from a twin.)
@@ -77,7 +79,7 @@ func newShared() *shared {
 	mk := func() *ast.DataMessage {
 		return ast.NewHSMSDataMessage("c", 3, 5, 1, "H<-E",
 			ast.NewListNode(ast.NewASCIINode("text"), ast.NewFloatNode(8, 1.5, -2.25), ast.NewBinaryNode(1, 2, 255), ast.NewUintNode(2, long...),
-				ast.NewASCIINode(strings.Repeat("0123456789abcdef", 320)), ast.NewListNode(ast.NewListNode(wide))), 77, []byte{9, 8, 7, 6})
+				ast.NewASCIINode(strings.Repeat("0123456789abcdef", 320)), deepAround(wide, 14)), 77, []byte{9, 8, 7, 6})
 	}
 	s.complete = mk()
 	if h, err := hex.DecodeString(os.Getenv("VERIF_CONC_BYTES")); err == nil && len(h) > 0 {
@@ -99,6 +101,15 @@ func newShared() *shared {
 		s.variants = append(s.variants, b)
 	}
 	return s
+}
+
+// deepAround: x under d enclosing lists, each with a small sibling in front (printing, encoding and listing at depths
+// that nothing in the process has reached before the goroutines do)
+func deepAround(x ast.ItemNode, d int) ast.ItemNode {
+	for k := 0; k < d; k++ {
+		x = ast.NewListNode(ast.NewUintNode(1, k), x)
+	}
+	return x
 }
 
 // coldTimes: in a cold process every call of the configuration is made by three goroutines, so that whatever the
@@ -133,6 +144,11 @@ func dig(v interface{}) string {
 
 // exec runs one call. tag makes the names it introduces fresh (never seen by the process before).
 func (s *shared) exec(c concCall, tag string, pos int) string {
+	if s.cold && pos%3 == 1 && (c.Op == "String" || c.Op == "ToBytes" || c.Op == "Variables") {
+		// in a cold process every third observer call goes to the complete message, whose lists are nested deeper than
+		// anything the process has printed, encoded or listed before
+		c.Obj = "complete"
+	}
 	item := func() ast.ItemNode {
 		switch c.Obj {
 		case "template":
@@ -330,7 +346,9 @@ func driverConcCold(c *Ctx) {
 		pick = append(pick, i)
 	}
 	out := make([]J, len(pick))
-	coldBytes := "VERIF_CONC_BYTES=" + hex.EncodeToString(newShared().bytes)
+	parentShared := newShared()
+	coldBytes := "VERIF_CONC_BYTES=" + hex.EncodeToString(parentShared.bytes)
+	coldSml := "VERIF_CONC_SML=" + hex.EncodeToString([]byte(parentShared.smlText))
 	refs := make([][]string, len(pick))
 	for j, i := range pick {
 		ref := newShared()
@@ -361,7 +379,7 @@ func driverConcCold(c *Ctx) {
 				tmp, _ := os.CreateTemp("", "cold-*.ndjson")
 				tmp.Close()
 				cmd := exec.Command(os.Args[0], "conc", "-in", c.In, "-only", fmt.Sprint(i), "-n", "1", "-seed", fmt.Sprint(c.Seed), "-out", tmp.Name())
-				cmd.Env = append(os.Environ(), coldBytes)
+				cmd.Env = append(os.Environ(), coldBytes, coldSml)
 				var stderr strings.Builder
 				cmd.Stderr = &stderr
 				err := cmd.Run()
